@@ -1,8 +1,10 @@
 package main
 
 import (
+	"encoding/json"
 	"fmt"
 	"sort"
+	"strings"
 
 	"github.com/knz/shakespeare/verifharness/vh"
 )
@@ -37,101 +39,100 @@ type summary struct {
 	CoqIds              []int // case ids in the Coq shards, in order
 }
 
-func summarise(cases []*Case, seed int64, tier string) *summary {
-	s := &summary{Seed: seed, Tier: tier, Cases: len(cases), RejectedByRisk: map[string]int{}, Fails: map[string]int{},
-		Risks: map[string]int{}, Kinds: map[string]int{}}
-	distinct := map[string]bool{}
-	for i, c := range cases {
-		if c.Risk != "" {
-			s.Risks[c.Risk]++
+type summariser struct {
+	s        *summary
+	distinct map[string]bool
+}
+
+func newSummariser(seed int64, tier string) *summariser {
+	return &summariser{s: &summary{Seed: seed, Tier: tier, RejectedByRisk: map[string]int{}, Fails: map[string]int{},
+		Risks: map[string]int{}, Kinds: map[string]int{}}, distinct: map[string]bool{}}
+}
+
+// add accounts for one case (called before the case is lightened).
+func (z *summariser) add(i int, c *Case) {
+	s := z.s
+	s.Cases++
+	if c.Risk != "" {
+		s.Risks[c.Risk]++
+	}
+	if c.Fail != "" {
+		s.Fails[c.Sig]++
+		s.FailIdx = append(s.FailIdx, i)
+	}
+	if !c.A.Accepted {
+		s.Rejected++
+		s.RejectedByRisk[c.Risk]++
+		return
+	}
+	s.Accepted++
+	if c.PrintedA == nil {
+		s.PrintedUnparsed++
+	}
+	kinds := map[string]bool{}
+	story := 0
+	multiline := false
+	lastM := ""
+	seenM := map[string]bool{}
+	interleaved := false
+	for _, cl := range c.Raw {
+		kinds[cl.K] = true
+		s.Kinds[cl.K]++
+		if cl.K == "storyline" {
+			story++
 		}
-		if c.Fail != "" {
-			s.Fails[c.Sig]++
-			s.FailIdx = append(s.FailIdx, i)
-		}
-		if !c.A.Accepted {
-			s.Rejected++
-			s.RejectedByRisk[c.Risk]++
-			continue
-		}
-		s.Accepted++
-		if c.PrintedA == nil {
-			s.PrintedUnparsed++
-		}
-		if c.InCoq {
-			s.InCoq++
-		}
-		kinds := map[string]bool{}
-		story := 0
-		multiline := false
-		lastM, switches := "", 0
-		seenM := map[string]bool{}
-		interleaved := false
-		for _, cl := range c.Raw {
-			kinds[cl.K] = true
-			s.Kinds[cl.K]++
-			if cl.K == "storyline" {
-				story++
+		if cl.K == "role" {
+			if cl.Name2 != "" {
+				kinds["extends"] = true
 			}
-			if cl.K == "role" {
-				if cl.Name2 != "" {
-					kinds["extends"] = true
-				}
-				for _, l := range cl.Lines {
-					if containsNL(l.Text) {
-						multiline = true
-					}
-				}
-			}
-			if cl.K == "cast" && (cl.Star || containsNL(cl.Text)) {
-				if cl.Star {
-					kinds["multi"] = true
-				}
-				if containsNL(cl.Text) {
+			for _, l := range cl.Lines {
+				if containsNL(l.Text) {
 					multiline = true
 				}
 			}
-			if cl.section() == "audience" {
-				if cl.M != lastM {
-					if seenM[cl.M] {
-						interleaved = true
-					}
-					switches++
-					lastM = cl.M
+		}
+		if cl.K == "cast" {
+			if cl.Star {
+				kinds["multi"] = true
+			}
+			if containsNL(cl.Text) {
+				multiline = true
+			}
+		}
+		if cl.section() == "audience" {
+			if cl.M != lastM {
+				if seenM[cl.M] {
+					interleaved = true
 				}
-				seenM[cl.M] = true
+				lastM = cl.M
 			}
-		}
-		b2i := func(b bool) int {
-			if b {
-				return 1
-			}
-			return 0
-		}
-		s.WithParams += b2i(len(c.Params) > 0)
-		s.WithIncludes += b2i(len(c.Files) > 1)
-		s.WithExtends += b2i(kinds["extends"])
-		s.WithMultiActor += b2i(kinds["multi"])
-		s.WithMultiLine += b2i(multiline)
-		s.WithMergedStory += b2i(story > 1)
-		s.WithEdit += b2i(kinds["edit"])
-		s.WithRepeat += b2i(kinds["repeatfrom"])
-		s.WithLike += b2i(kinds["expectslike"])
-		s.WithInterp += b2i(kinds["interp"] || kinds["ignoreall"])
-		s.InterleavedAudience += b2i(interleaved)
-		// non-trivial: accepted, has a cast, a non-empty play and an audience
-		if c.A.Cfg != nil && len(c.A.Cfg.Actors) > 0 && len(c.A.Cfg.Play) > 0 && len(c.A.Cfg.Audience) > 0 {
-			distinct[c.A.Printed] = true
+			seenM[cl.M] = true
 		}
 	}
-	s.DistinctNontrivial = len(distinct)
-	for i := 0; i < len(cases) && len(s.Samples) < 3; i++ {
-		if cases[i].A.Accepted && len(cases[i].Files) > 1 && len(cases[i].Params) > 0 {
-			s.Samples = append(s.Samples, cases[i].Files["m.cfg"])
+	b2i := func(b bool) int {
+		if b {
+			return 1
 		}
+		return 0
 	}
-	sort.Ints(s.FailIdx)
-	return s
+	s.WithParams += b2i(len(c.Params) > 0)
+	s.WithIncludes += b2i(len(c.Files) > 1)
+	s.WithExtends += b2i(kinds["extends"])
+	s.WithMultiActor += b2i(kinds["multi"])
+	s.WithMultiLine += b2i(multiline)
+	s.WithMergedStory += b2i(story > 1)
+	s.WithEdit += b2i(kinds["edit"])
+	s.WithRepeat += b2i(kinds["repeatfrom"])
+	s.WithLike += b2i(kinds["expectslike"])
+	s.WithInterp += b2i(kinds["interp"] || kinds["ignoreall"])
+	s.InterleavedAudience += b2i(interleaved)
+	// non-trivial: accepted, has a cast, a non-empty play and an audience
+	if c.A.Cfg != nil && len(c.A.Cfg.Actors) > 0 && len(c.A.Cfg.Play) > 0 && len(c.A.Cfg.Audience) > 0 {
+		z.distinct[c.A.Printed] = true
+	}
+	if len(s.Samples) < 3 && len(c.Files) > 1 && len(c.Params) > 0 {
+		s.Samples = append(s.Samples, c.Files["m.cfg"])
+	}
 }
 
 func containsNL(s string) bool {
@@ -143,25 +144,68 @@ func containsNL(s string) bool {
 	return false
 }
 
-func writeAll(cases []*Case, out string, seed int64, tier string) {
-	s := summarise(cases, seed, tier)
-	s.Shards = writeCoq(cases, out)
-	s.InCoq = 0
-	for i, c := range cases {
-		if c.InCoq {
-			s.InCoq++
-			s.CoqIds = append(s.CoqIds, i)
-		}
-	}
-	vh.WriteJSON(out, "summary.json", s)
-	// cases.json: by case id.  Every case in the quick tier; in the larger
-	// tiers the failing ones and a sample (any other can be regenerated:
-	// `c10 -seed S -tier T -dump ID`).
+// lighten drops what is not needed once a case is summarised and emitted.
+func lighten(c *Case) {
+	c.A.Cfg, c.A.Full, c.A.Annot = nil, "", ""
+	c.R2.Cfg, c.R2.Full, c.R2.Annot = nil, "", ""
+	c.B, c.R3 = obs{}, obs{}
+	c.PrintedA, c.Printed2 = nil, nil
+}
+
+// run generates count cases, streaming: shards of shardSize cases in the
+// Coq domain are written as they fill up; cases.json keeps every case in the
+// quick tier, the failing ones and a sample otherwise (any other can be
+// regenerated: `c10 -seed S -tier T -dump ID`).
+func run(count int, seed int64, tier, out string, dump int, fixed []*Case) {
+	r := vh.Rng(seed)
+	z := newSummariser(seed, tier)
 	keep := map[string]*Case{}
-	for i, c := range cases {
+	var shard strings.Builder
+	var names []string
+	shards := 0
+	flush := func() {
+		if len(names) == 0 {
+			return
+		}
+		fmt.Fprintf(&shard, "Definition cases : list c10_case := %s.\n", vh.ListNL(names))
+		vh.WriteFile(out, fmt.Sprintf("cases_%d.v", shards), shard.String())
+		shards++
+		shard.Reset()
+		names = nil
+	}
+	for i := 0; i < count; i++ {
+		var c *Case
+		if fixed != nil {
+			c = fixed[i]
+		} else {
+			c = buildCase(i, r, tier)
+		}
+		if dump == i {
+			b, _ := json.MarshalIndent(c, "", " ")
+			fmt.Println(string(b))
+			return
+		}
+		z.add(i, c)
+		c.InCoq = inCoqDomain(c)
+		if c.InCoq {
+			n := fmt.Sprintf("c%d", len(names))
+			names = append(names, n)
+			fmt.Fprintf(&shard, "(* case %d *)\n%s\n", c.Id, coqCase(n, c))
+			z.s.InCoq++
+			z.s.CoqIds = append(z.s.CoqIds, i)
+			if len(names) == shardSize {
+				flush()
+			}
+		}
+		lighten(c)
 		if tier != "thorough" || c.Fail != "" || i%50 == 0 {
 			keep[fmt.Sprint(c.Id)] = c
 		}
 	}
+	flush()
+	z.s.Shards = shards
+	z.s.DistinctNontrivial = len(z.distinct)
+	sort.Ints(z.s.FailIdx)
+	vh.WriteJSON(out, "summary.json", z.s)
 	vh.WriteJSON(out, "cases.json", map[string]interface{}{"cases": keep})
 }
